@@ -140,7 +140,15 @@ class Run:
                 for inst in self.insts:
                     ann.announce_service(inst)
             elif a["kind"] == "ann_start":
-                ann.start()
+                _STARTS[0] += 1
+                if _STARTS[0] % 3 == 0 and not any(x["kind"] in ("unannounce", "reannounce") for _t, _r, x in self.script):
+                    # the application starts its registered instances one by one (ServiceInstance.start()) and never the
+                    # announcer as a whole: an instance that has started answers like any other
+                    for inst in self.insts:
+                        inst.start()
+                    _STARTS[1] += 1
+                else:
+                    ann.start()
             elif a["kind"] == "unannounce":
                 ann.stop_announce_service(self.insts[a["k"]])
             elif a["kind"] == "reannounce":
@@ -167,6 +175,9 @@ class Run:
         sent = net.decode_sent(self.tr.sent)
         self.h.close()
         return sent, problems
+
+
+_STARTS = [0, 0]
 
 
 def build(rng):
@@ -264,6 +275,8 @@ def judge(ctx, sc, seed, replay):
     run = Run(cfg, sc["insts"], sc["script"], seed)
     sent, problems = run.execute(sc["horizon"])
     ctx.count("scenarios")
+    ctx.count("scenarios_whose_instances_were_started_one_by_one", _STARTS[1])
+    _STARTS[1] = 0
     ctx.count("find_entries", len(sc["entries"]))
     if len(sc["entries"]) > 80:
         ctx.count("requests_with_more_than_80_find_entries")
